@@ -89,7 +89,7 @@ PROPS = {
     ),
     'C15': dict(
         title='transient topic: each subscriber sees every item once, in order, then the end',
-        quick=[mc('mc_topic', 'all', 'sc', P=2, E=0, budget=100), mc('mc_topic', '0,1,3,4,6,7', 'tso', P=2, D=1, E=1, budget=120), mc('mc_topic', '2,5', 'tso', P=1, D=1, E=0, budget=300)],
+        quick=[mc('mc_topic', 'all', 'sc', P=2, E=0, budget=100), mc('mc_topic', '0,1,3,4,6,7,8', 'tso', P=2, D=1, E=1, budget=200), mc('mc_topic', '2,5', 'tso', P=1, D=1, E=0, budget=300)],
         thorough=[mc('mc_topic', 'all', 'sc', P=3, E=1, budget=400), mc('mc_topic', '0,1,3,4,6,7', 'tso', P=3, D=2, E=1, budget=400), mc('mc_topic', '2,5', 'tso', P=2, D=1, E=1, budget=400)],
         oracle='every consumer receives exactly the published items in publication-index order (per-publisher order for concurrent publishers), payload complete (checksum + HB race detector on the slot values), blocks instead of returning short before close, end marker after close, no lost wake-up (deadlock detector), same again after clear()',
     ),
@@ -127,9 +127,9 @@ PROPS = {
     ),
     'C13': dict(
         title='coroutines: each suspension resumed exactly once, on its executor, right result',
-        quick=[mc('mc_coro', 'all', 'sc', P=2, E=1, budget=150), mc('mc_coro', '0,1,2,4,5,6,9,10,11', 'tso', P=1, D=1, E=0, budget=100)],
-        thorough=[mc('mc_coro', 'all', 'sc', P=3, E=1, budget=400), mc('mc_coro', 'all', 'tso', P=2, D=1, E=0, budget=400)],
-        oracle='per suspension a resume counter that must be exactly 1 at the end (0 = left suspended, 2 = double resume, also caught by the freed-frame oracle), resumption observed inside the bound executor, awaited value / empty optional iff the cancel call returned true, wake_one/wake_all return values vs coroutines actually resumed, DepositBox slots ever allocated <= simultaneously pending waits, HB race detector on the recycled per-wait nodes',
+        quick=[sq('sq_coro', ['--depth', '8', '--jobs', '1'], budget=60), mc('mc_coro', 'all', 'sc', P=2, E=1, budget=150), mc('mc_coro', '0,1,2,4,5,6,9,10,11,13', 'tso', P=1, D=1, E=0, budget=150)],
+        thorough=[sq('sq_coro', ['--depth', '10', '--jobs', '1'], budget=200), mc('mc_coro', 'all', 'sc', P=3, E=1, budget=400), mc('mc_coro', 'all', 'tso', P=2, D=1, E=0, budget=400)],
+        oracle='per suspension a resume counter that must be exactly 1 at the end (0 = left suspended, 2 = double resume, also caught by the freed-frame oracle), resumption observed inside the bound executor, awaited value / empty optional iff the cancel call returned true, wake_one/wake_all return values vs coroutines actually resumed, DepositBox slots ever allocated <= simultaneously pending waits, HB race detector on the recycled per-wait nodes; sequential half (sq_coro): every sequence of wait / non-suspending wait / wake_one / wake_all / cancel(k) on one futex over an inplace executor vs the set of suspended waiters (return values, who is resumed, exactly once; a hung operation is reported with its history)',
     ),
     'C20': dict(
         title='logging: each committed entry written once, intact, in order; pages returned',
